@@ -32,7 +32,7 @@ TRUSTED = ['pbt/fakezk.py', 'pbt/mastersim.py']
 BUDGET = {'quick': 3200, 'thorough': 128000}
 
 PROFILE = {
-    'weights': {'restart': 8, 'reboot': 2, 'down': 3, 'up': 2, 'idg': 2,
+    'weights': {'rmbucket': 1, 'rmbucketrestart': 2, 'restart': 8, 'reboot': 2, 'down': 3, 'up': 2, 'idg': 2,
                 'cycle': 8, 'app': 12, 'state': 5, 'downseq': 2},
     'force': ['restart', 'state'],
     'pre': (4, 12),
@@ -90,6 +90,12 @@ def execute(case, stats):
         for server, insts in by_server.items():
             record = zkutils.get_default(sim.admin, z.path.server(server))
             okay = bool(record)
+            if okay and not sim.admin.exists(
+                    z.path.bucket(record.get('parent') or '-')):
+                # the rack the record names is not defined (any more): the
+                # server is not part of the topology a new master can build
+                okay = False
+                stats.count('servers_without_rack_definition')
             if okay:
                 cap = mastersim.ref_vector(record)
                 label = record.get('partition') or '_default'
